@@ -240,6 +240,66 @@ def run_case(inp: dict) -> list[dict]:
     return viols
 
 
+def run_context(inp: dict) -> list[dict]:
+    """A molecule's subtomogram does not depend on which other molecules are in the loader, nor on whether
+    it is read through a SubtomogramLoader or a BatchLoader with the same settings."""
+    import dask
+    from scipy.spatial.transform import Rotation
+    from acryo import SubtomogramLoader, BatchLoader, Molecules
+    viols = []
+    r = np.random.default_rng(inp["seed"])
+    shape = tuple(inp["shape"])
+    order, cs, scale = int(inp["order"]), bool(inp["corner_safe"]), float(inp["scale"])
+    tomos = [_tomogram(inp["seed"] + t, tuple(inp["tomo_shape"])) for t in range(2)]
+    n = int(inp["n"])
+    base = np.array([int(r.integers(9, s - 9)) for s in inp["tomo_shape"]], dtype=float)
+    pos = []
+    for i in range(n):
+        if i % 2 == 0:      # several molecules in the same voxel, different sub-voxel positions
+            pos.append(base + r.uniform(0.05, 0.95, size=3))
+        else:
+            pos.append(np.array([r.uniform(9, s - 9) for s in inp["tomo_shape"]]))
+    pos = np.array(pos)
+    rot = Rotation.random(n, random_state=inp["seed"])
+    kw = dict(order=order, scale=scale, output_shape=shape, corner_safe=cs)
+    with dask.config.set(scheduler="synchronous"):
+        try:
+            alone = [np.asarray(SubtomogramLoader(tomos[i % 2], Molecules(pos[[i]] * scale, rot[[i]]), **kw).load(0))
+                     for i in range(n)]
+            idx0 = [i for i in range(n) if i % 2 == 0]
+            together = np.asarray(SubtomogramLoader(tomos[0], Molecules(pos[idx0] * scale, rot[idx0]), **kw).asnumpy())
+            rev = np.asarray(SubtomogramLoader(tomos[0], Molecules(pos[idx0[::-1]] * scale, rot[idx0[::-1]]), **kw).asnumpy())
+            b = BatchLoader(**kw)
+            for t in range(2):
+                sel = [i for i in range(n) if i % 2 == t]
+                b.add_tomogram(tomos[t], Molecules(pos[sel] * scale, rot[sel]), t)
+            batch = np.asarray(b.asnumpy())
+            border = [i for t in range(2) for i in range(n) if i % 2 == t]
+        except Exception as e:  # noqa: BLE001
+            return [{"clause": "no-other-error", "desc": f"context case: {type(e).__name__}: {str(e)[:120]}", "input": dict(inp)}]
+    tol = 1e-5 * float(np.ptp(tomos[0])) + 1e-6
+
+    def V(desc):
+        viols.append({"clause": "context-independent", "desc": desc, "input": dict(inp)})
+
+    for k, i in enumerate(idx0):
+        if np.abs(together[k] - alone[i]).max() > tol:
+            V(f"molecule {i} read together with others in its voxel differs from reading it alone by "
+              f"{np.abs(together[k] - alone[i]).max():.4g} (order {order}, corner_safe {cs})")
+            break
+    for k, i in enumerate(idx0[::-1]):
+        if np.abs(rev[k] - alone[i]).max() > tol:
+            V(f"molecule {i} read in reversed molecule order differs from reading it alone by "
+              f"{np.abs(rev[k] - alone[i]).max():.4g}")
+            break
+    for k, i in enumerate(border):
+        if batch.shape[0] != n or np.abs(batch[k] - alone[i]).max() > tol:
+            V(f"BatchLoader(corner_safe={cs}, order={order}) row {k} differs from the SubtomogramLoader result for the "
+              f"same molecule by {np.abs(batch[k] - alone[i]).max():.4g}")
+            break
+    return viols
+
+
 def _rand_quat(rng, kind):
     if kind == "identity":
         return [0.0, 0.0, 0.0, 1.0]
@@ -315,10 +375,19 @@ def oracle(rng, thorough, deep=False, hints=None):
         stats["dask"] += int(inp["chunks"] is not None)
         v = run_case(inp)
         viols += v
+    ctx = []
+    for it in range(12 if (thorough or deep) else 4):
+        ctx.append(dict(context=True, seed=int(rng.integers(0, 10 ** 6)), tomo_shape=[30, 28, 32],
+                        shape=[[5, 5, 5], [4, 6, 5], [7, 3, 5]][it % 3], order=int([1, 3, 1, 0][it % 4]) if it % 4 != 3 else 1,
+                        corner_safe=bool(it % 2), scale=float([1.0, 0.5][it % 2]), n=int(rng.integers(4, 9))))
+    for inp in ctx:
+        stats["context"] = stats.get("context", 0) + 1
+        viols += run_context(inp)
     stats["samples"] = [{"oracle_case": c} for c in cases[-2:]]
-    return len(cases), viols, stats
+    return len(cases) + len(ctx), viols, stats
 
 
 def replay(payload):
-    v = run_case(dict(payload["input"]))
+    inp = dict(payload["input"])
+    v = run_context(inp) if inp.get("context") else run_case(inp)
     return {"violated": bool(v), "violations": v}
